@@ -143,7 +143,9 @@ def realise(sc, mode, variant, total, tmpdir):
     whole = "".join(pieces)
     body_text = "".join(pieces[start:])
     want = b"" if kind == "none" else enc(body_text)
-    table = {c: k for c, k in zip(chars, lens)}
+    table = {}                                     # character -> the block lengths it occurs with
+    for c, k in zip(chars, lens):
+        table.setdefault(c, set()).add(k)
     cstart = sum(lens[:start])                     # start offset in characters
     if kind == "none":
         body = None
@@ -206,7 +208,7 @@ def units_of(payload: bytes, table, textual):
         j = i
         while j < len(s) and s[j] == s[i]:
             j += 1
-        if table.get(s[i]) == j - i:
+        if j - i in table.get(s[i], ()):
             out.extend(tokenise(s[i].encode("utf-8" if textual else "latin-1")))
         else:
             out.extend(["?run", s[i] if s[i].isalnum() else "?", str(j - i)])
